@@ -82,6 +82,14 @@ def project_frames(err):
     return out
 
 
+def _cycle(fr):
+    cnt = {}
+    for f in fr:
+        cnt[f] = cnt.get(f, 0) + 1
+    top = max(cnt.values())
+    return sorted(f for f, c in cnt.items() if c * 2 >= top and c > 1)
+
+
 def frames_signature(err, how):
     fr = project_frames(err)
     if not fr:
@@ -89,11 +97,7 @@ def frames_signature(err, how):
     if how.endswith("stack-overflow"):
         # recursion: the innermost frames depend on where the guard page was hit; use the set of
         # functions that make up the cycle (most frequent in the trace), sorted.
-        cnt = {}
-        for f in fr:
-            cnt[f] = cnt.get(f, 0) + 1
-        top = max(cnt.values())
-        cyc = sorted(f for f, c in cnt.items() if c * 2 >= top and c > 1)
+        cyc = _cycle(fr)
         return "recursion=" + ",".join(cyc[:4]) if cyc else fr[0]
     ded = []
     for f in fr:
@@ -114,11 +118,20 @@ DRIVER_FRAMES = {
 
 
 def hang_signature(err):
+    """where the time goes: the phase function (first frame below the drivers, seen from main), or, when the trace
+    is so deep that the sanitizer truncated it (256 frames), the functions that make up the recursion."""
     fr = project_frames(err)      # innermost first
+    if not fr:
+        return "?"
+    nframes = len(re.findall(r"^\s*#\d+ 0x", err, re.M))
+    if nframes >= 200 or "main" not in fr:
+        cyc = _cycle(fr)
+        if cyc:
+            return "recursion=" + ",".join(cyc[:4])
     for f in reversed(fr):
         if f not in DRIVER_FRAMES:
             return f
-    return fr[0] if fr else "?"
+    return fr[0]
 
 
 def ubsan_fatal_kind(err):
@@ -127,7 +140,7 @@ def ubsan_fatal_kind(err):
             k = m.group(1)
             k = re.sub(r"0x[0-9a-f]+", "P", k)
             k = re.sub(r"-?\d+", "N", k)
-            k = re.sub(r"'(\w+)[^']*'", r"\1", k)
+            k = re.sub(r"'(?:struct |class |union |const )*(\w+)[^']*'", r"\1", k)
             k = re.sub(r"'[^']*'", "T", k)
             return re.sub(r"[^A-Za-z]+", "-", k).strip("-")[:60]
     return None
@@ -261,7 +274,7 @@ def command_for(b, inp, d):
     return argv, outs
 
 
-CPU_LIMIT_SMALL, CPU_LIMIT_BIG = 6, 12      # seconds of CPU time (inputs <= 4 kB / larger); confirm run: twice that
+CPU_LIMIT_SMALL, CPU_LIMIT_BIG = 10, 10     # seconds of CPU time; the confirming run gets twice that (normal: 0.03 s)
 WALL_BACKUP = 25                            # x cpu limit: wall-clock backstop (blocked child / overloaded host)
 
 
@@ -514,7 +527,7 @@ def enum_inputs(tier):
         out.append(make_input("pfE" if i % 2 else "ig", b"int a = " + w + b";\nstruct Q { int q = " + w + b"; " + w +
                               b" };\n", "enum_tok_ctx", "tok%d" % i, ig=(i // 2) % len(IG_OPTS)))
         out.append(make_input("pf", b"#if " + w + b"\n#endif\n#define M " + w + b"\nM\n", "enum_tok_if", "tok%d" % i))
-    depths = (64, 1000) if tier != "thorough" else (16, 64, 256, 1000)
+    depths = (64, 1000) if tier != "thorough" else (16, 64, 100, 1000)
     rng = random.Random("C15-nest")
     for k in mutgen.NEST_KINDS:
         for n in depths:
@@ -681,16 +694,17 @@ def run_fuzz_case(ctx, case):
         data = open(os.path.join(adir, a), "rb").read()
         kind = a.split("-")[0]
         res.count("fuzz_artifacts")
-        inp = make_input("pf", data, "libfuzzer_" + kind, "fuzz", cxx=True)
+        # the harness sends odd-sized inputs through preprocess_file (parse_file -E)
+        inp = make_input("pfE" if len(data) & 1 else "pf", data, "libfuzzer_" + kind, "fuzz", cxx=True)
         o = exec_input(b, inp, d2, res)
-        res.features.add("pf|libfuzzer_%s|%s" % (kind, o.cls))
+        res.features.add("%s|libfuzzer_%s|%s" % (inp["t"], kind, o.cls))
         if o.key is None:
             res.count("fuzz_artifacts_not_reproduced")
             continue
         res.count("fuzz_artifacts_reproduced")
         full = "C15:" + o.key
         if full in _known_open():
-            res.violation(o.key, target="pf", mutator="libfuzzer")
+            res.violation(o.key, target=inp["t"], mutator="libfuzzer")
             continue
         res.violation(o.key, raw=True, input=inp)
     res.sample = {"target": "libfuzzer", "execs": execs, "artifacts": len(arts)}
